@@ -22,6 +22,7 @@
   reaches I.
 -/
 import GraphiqModel.Proofs.LC
+import GraphiqModel.Proofs.LCSeqLoop
 namespace Graphiq.C09
 open Graphiq Graphiq.LC Graphiq.PRow Graphiq.Tab
 
@@ -269,5 +270,24 @@ def lc_sequence_statement : Prop :=
   ∀ (fuel : Nat) (a b : BMat) (out : EqOut) (q : List Bool) (seq : List Nat), 0 < a.r → a.r = b.r → Simple a.r a.f →
     Simple b.r b.f → isLcEquivalent a b .det [] = .ok out → out.sol = some q →
     lcGraphOperations fuel a.r a.f q = .ok seq → EqAdj a.r (applySeq a.f seq) b.f
+
+/-- **the R-matrix reduction of `lc_graph_operations` is correct** (the constructive direction of Van den Nest–Dehaene–De Moor,
+    Section IV, proved for every n): for *any* local Clifford `Q` with invertible blocks that solves the system for
+    `(a, b)`, every vertex sequence the reduction returns (singles, then doubles `i, j, i`) consists of vertices of the graph
+    and, applied to `a` as local complementations, gives exactly `b`.  Invariant: the matrix the Python rewrites is
+    `R = C θ + D` for the current graph θ and a residual valid `Q` from θ to `b`; one `_apply_f` at a vertex with `c_v = 1` is
+    one complementation (`applyF_tracks`, `LCInv.step`), and `R = I` forces θ = b (`identity_R_means_done`). -/
+theorem lc_graph_operations_reaches_the_target (fuel n : Nat) (a b : Adj) (q : List Bool) (seq : List Nat)
+    (ha : Simple n a) (hb : Simple n b) (hq : ∀ j k, j < n → k < n → equation n a b (vget q) j k = false)
+    (hv : isValidClifford n q = true) (e : lcGraphOperations fuel n a q = .ok seq) :
+    EqAdj n (applySeq a seq) b ∧ ∀ v ∈ seq, v < n :=
+  lcGraphOperations_correct fuel n a b q seq ha hb hq hv e
+
+/-- `lc_sequence_statement` holds: the sequence returned for the `Q` of a `yes` transforms the first graph into the second -/
+theorem lc_sequence_correct : lc_sequence_statement := by
+  intro fuel a b out q seq hn hab ha hb e hq hseq
+  obtain ⟨_, h2, h3⟩ := yes_returns_a_valid_clifford a b .det [] out q hn e hq
+  have hb' : Simple a.r b.f := by rw [hab]; exact hb
+  exact (lc_graph_operations_reaches_the_target fuel a.r a.f b.f q seq ha hb' h2 h3 hseq).1
 
 end Graphiq.C09
